@@ -336,6 +336,22 @@ def _recover(res, kind, image, plan, exp, stale_blobs, sig_base, ctx, depth=0):
                 h.put(*FRESH2)
                 if kind == "a_crash2":
                     h.put(*FRESH3)
+                # "further appends read back correctly": also at once, through the very handle that appended them (whatever
+                # of the torn tail still sits in its read buffer)
+                for fk_, fv_ in (FRESH1, FRESH2):
+                    try:
+                        g_ = h.get(fk_)
+                    except Exception as e_:  # noqa: BLE001
+                        res.violate("d-append-after-recovery-unreadable-in-session", f"{sig_base}|d-same-session-raises-{type(e_).__name__}",
+                                    f"get({short(fk_)}) right after the recovery put raised {e_!r}; {ctx}")
+                        h.close()
+                        return
+                    if g_ != fv_:
+                        res.violate("d-append-after-recovery-wrong-value-in-session", f"{sig_base}|d-same-session-value",
+                                    f"get({short(fk_)}) right after the recovery put = {short(g_)} expected {short(fv_)}; {ctx}")
+                        h.close()
+                        return
+                res.stats["probe:recovery_append_read_back_in_the_same_session"] += 1
                 h.close()
                 res.stats["probe:recovery_append_done"] += 1
                 h2 = UKVFile(path, mode="r")
